@@ -486,6 +486,7 @@ impl ProtocolState {
 //@fn gneiss-mqtt/src/protocol.rs ProtocolState::handle_puback props=C01,C11,C06
     requires old(self).wf(), *packet is Puback,
     ensures final(self).wf(),
+        hs_ok(*old(self)) ==> hs_ok(*final(self)),
         final(self).next_operation_id == old(self).next_operation_id,
         completion_frame(*old(self), *final(self)),
         ({
@@ -502,6 +503,7 @@ impl ProtocolState {
 //@fn gneiss-mqtt/src/protocol.rs ProtocolState::handle_pubcomp props=C01,C04,C11,C06
     requires old(self).wf(), *packet is Pubcomp,
     ensures final(self).wf(),
+        hs_ok(*old(self)) ==> hs_ok(*final(self)),
         final(self).next_operation_id == old(self).next_operation_id,
         completion_frame(*old(self), *final(self)),
         ({
@@ -528,6 +530,7 @@ impl ProtocolState {
 //@fn gneiss-mqtt/src/protocol.rs ProtocolState::handle_suback props=C01,C11,C06
     requires old(self).wf(), *packet is Suback,
     ensures final(self).wf(),
+        hs_ok(*old(self)) ==> hs_ok(*final(self)),
         final(self).next_operation_id == old(self).next_operation_id,
         completion_frame(*old(self), *final(self)),
         ({
@@ -545,6 +548,7 @@ impl ProtocolState {
 //@fn gneiss-mqtt/src/protocol.rs ProtocolState::handle_unsuback props=C01,C11,C06
     requires old(self).wf(), *packet is Unsuback,
     ensures final(self).wf(),
+        hs_ok(*old(self)) ==> hs_ok(*final(self)),
         final(self).next_operation_id == old(self).next_operation_id,
         completion_frame(*old(self), *final(self)),
         ({
@@ -562,6 +566,7 @@ impl ProtocolState {
 //@fn gneiss-mqtt/src/protocol.rs ProtocolState::handle_pubrec props=C01,C04,C11,C06
     requires old(self).wf(), *packet is Pubrec,
     ensures final(self).wf(),
+        hs_ok(*old(self)) ==> hs_ok(*final(self)),
         final(self).next_operation_id == old(self).next_operation_id,
         ({
             let pubrec = packet->Pubrec_0;
@@ -608,6 +613,7 @@ impl ProtocolState {
 //@fn gneiss-mqtt/src/protocol.rs ProtocolState::handle_pubrel props=C05,C11
     requires old(self).wf(), *packet is Pubrel, opid_budget(*old(self), 1),
     ensures final(self).wf(),
+        hs_ok(*old(self)) ==> hs_ok(*final(self)),
         old(self).next_operation_id <= final(self).next_operation_id <= old(self).next_operation_id + 1,
         ({
             let pid = packet->Pubrel_0.packet_id;
@@ -633,6 +639,7 @@ impl ProtocolState {
 //@fn gneiss-mqtt/src/protocol.rs ProtocolState::handle_publish props=C05,C11
     requires old(self).wf(), *packet is Publish, opid_budget(*old(self), 1),
     ensures final(self).wf(),
+        hs_ok(*old(self)) ==> hs_ok(*final(self)),
         old(self).next_operation_id <= final(self).next_operation_id <= old(self).next_operation_id + 1,
         final(context).current_time == old(context).current_time,
         ({
@@ -669,6 +676,7 @@ impl ProtocolState {
 
 //@fn gneiss-mqtt/src/protocol.rs ProtocolState::handle_pingresp props=C14,C11
     ensures
+        hs_ok(*old(self)) ==> hs_ok(*final(self)),
         final(self).next_operation_id == old(self).next_operation_id,
         ({
             let ok = (old(self).state == ProtocolStateType::Connected || old(self).state == ProtocolStateType::PendingDisconnect)
@@ -681,6 +689,7 @@ impl ProtocolState {
 //@fn gneiss-mqtt/src/protocol.rs ProtocolState::handle_disconnect props=C11
     requires *packet is Disconnect,
     ensures *final(self) == *old(self), r is Err,
+        hs_ok(*old(self)) ==> hs_ok(*final(self)),
         final(self).next_operation_id == old(self).next_operation_id,
         final(context).current_time == old(context).current_time,
         (accepts_acks(old(self).state) && old(self).protocol_version != ProtocolVersion::Mqtt311)
@@ -691,6 +700,7 @@ impl ProtocolState {
 
 //@fn gneiss-mqtt/src/protocol.rs ProtocolState::handle_auth props=C11
     ensures *final(self) == *old(self), r is Err, final(_arg2).packet_events@ == old(_arg2).packet_events@, final(_arg2).current_time == old(_arg2).current_time,
+        hs_ok(*old(self)) ==> hs_ok(*final(self)),
         final(self).next_operation_id == old(self).next_operation_id,
 //@end
 }
@@ -1491,6 +1501,8 @@ impl ProtocolState {
         old(self).state == ProtocolStateType::Disconnected ==> r is Ok && final(self).state == ProtocolStateType::Disconnected,
         // frame: only the tracked tables, the three queues and the current-operation slot are touched
         closing_frame(*old(self), *final(self)),
+        // (the same effects with the queue frames of the failing cases spelt out; used for H2/H6 of DESIGN.md 2)
+        close_current_effect(*old(self), *final(self)),
         ({
             let pre = *old(self);
             let post = *final(self);
@@ -2172,6 +2184,7 @@ impl ProtocolState {
 //@fn gneiss-mqtt/src/protocol.rs ProtocolState::handle_network_event_connection_closed props=C01,C04,C06,C07,C09,C11,C15,C18 desugar
     requires old(self).wf(), interruptions_in_range(*old(self)),
     ensures final(self).wf(),
+        hs_ok(*old(self)) ==> hs_ok(*final(self)),
         old(self).state == ProtocolStateType::Disconnected ==> r is Err && *final(self) == *old(self),
         old(self).state != ProtocolStateType::Disconnected ==> {
             &&& r is Ok
@@ -2194,6 +2207,8 @@ impl ProtocolState {
                 self.pending_publish_operations@ == Map::<u16, u64>::empty(), self.pending_write_completion_operations@.len() == 0,
                 self.high_priority_operation_queue@.len() == 0,
                 forall|i: int| 0 <= i < it.remaining().len() ==> (self.operations@.contains_key((#[trigger] it.remaining()[i]).1) ==> *self.operations@[it.remaining()[i].1].packet is Publish),
+                hs_ok(*old(self)) ==> requeue_inv(*self, it.remaining(), false),
+            ensures hs_ok(*old(self)) ==> requeue_inv(*self, Seq::<(u16, u64)>::empty(), false),
             decreases it.decrease()->Some_0,
 //@@loop 1 manual=it
             invariant it.obeys_prophetic_iter_laws(), it.decrease() is Some,
@@ -2201,16 +2216,21 @@ impl ProtocolState {
                 slow_start_marks(*old(self), *self), interruption_counts(*old(self), *self),
                 self.pending_publish_operations@ == Map::<u16, u64>::empty(), self.pending_non_publish_operations@ == Map::<u16, u64>::empty(), self.pending_write_completion_operations@.len() == 0,
                 self.high_priority_operation_queue@.len() == 0,
+                hs_ok(*old(self)) ==> requeue_inv(*self, it.remaining(), true),
+            ensures hs_ok(*old(self)) ==> requeue_inv(*self, Seq::<(u16, u64)>::empty(), true),
             decreases it.decrease()->Some_0,
-//@@at after "self.operation_ack_timeouts.clear();"
+//@@at after "self.current_operation_ack_timeout_elapsed = false;"
         proof { assert(self.ss_set() =~= old(self).ss_set()); assert(self.wf()); }
         let ghost s0 = *self;
+        proof { if hs_ok(*old(self)) { assert(bound_located(s0) && fresh_pubrel_in_flight(s0) && resubmit_only_publishes(s0) && resubmit_known(s0)); } }
 //@@at after "self.apply_connection_closed_to_current_operation()?;"
         let ghost s1 = *self;
         proof { assert(evolved(*old(self), s1)); }
+        proof { if hs_ok(*old(self)) { lemma_close_current_parks(s0, s1); } }
 //@@at after "self.apply_slow_start_initialization();"
         let ghost s2 = *self;
         proof { assert(self.wf()); assert(evolved(*old(self), s2)); }
+        proof { if hs_ok(*old(self)) { lemma_close_inv_same_ids(s1, s2); } }
 //@@at after "self.update_interrupted_retries();"
         let ghost s3 = *self;
         proof {
@@ -2220,16 +2240,20 @@ impl ProtocolState {
                 lemma_awaiting_after_current_close(*old(self), s1, k);
             }
             assert(slow_start_marks(*old(self), s3)); assert(interruption_counts(*old(self), s3));
+            if hs_ok(*old(self)) { lemma_close_inv_same_ids(s2, s3); }
         }
 //@@at after "generate_connection_closed_error));"
         let ghost s4 = *self;
         proof { assert(evolved(*old(self), s4)); assert(slow_start_marks(*old(self), s4)); assert(interruption_counts(*old(self), s4)); }
+        proof { if hs_ok(*old(self)) { assert(s4.user_operation_queue@ =~= s3.user_operation_queue@ + Seq::<u64>::empty()); lemma_close_inv_shrunk(s3, s4, Seq::<u64>::empty()); } }
 //@@at after "generate_offline_queue_policy_failed_error)); @nth=1/2"
         let ghost s5 = *self;
         proof { assert(evolved(*old(self), s5)); assert(slow_start_marks(*old(self), s5)); assert(interruption_counts(*old(self), s5)); }
+        proof { if hs_ok(*old(self)) { assert(s5.user_operation_queue@ =~= s4b.user_operation_queue@ + Seq::<u64>::empty()); lemma_close_inv_shrunk(s4b, s5, Seq::<u64>::empty()); } }
 //@@at after "result = fold_mqtt_result(result, self.fail_operations_exceeding_max_interruption_limit());"
         let ghost s6 = *self;
         proof { assert(evolved(*old(self), s6)); assert(slow_start_marks(*old(self), s6)); assert(interruption_counts(*old(self), s6)); }
+        proof { if hs_ok(*old(self)) { assert(s6.user_operation_queue@ =~= s5.user_operation_queue@ + Seq::<u64>::empty()); lemma_close_inv_shrunk(s5, s6, Seq::<u64>::empty()); } }
 //@@at after "mem::swap(&mut unacked_publish_table, &mut self.pending_publish_operations);"
         proof { assert(self.ss_set() =~= s6.ss_set()); assert(self.wf()); }
 //@@at after "mem::swap(&mut unacked_sub_unsub_table, &mut self.pending_non_publish_operations);"
@@ -2243,6 +2267,126 @@ impl ProtocolState {
             assert(self.pending_non_publish_operations@ =~= Map::<u16, u64>::empty());
             assert(self.pending_write_completion_operations@.len() == 0);
             assert(self.high_priority_operation_queue@.len() == 0);
+        }
+//@@at before "self.user_operation_queue.append(&mut retained);"
+        let ghost ret0 = retained@;
+        let ghost s4a = *self;
+//@@at after "self.user_operation_queue.append(&mut retained);"
+        let ghost s4b = *self;
+        proof {
+            if hs_ok(*old(self)) {
+                // (the written-not-flushed list was swapped out: nothing H2/H6 mention changed) then the kept ones join the user queue
+                assert(close_inv(s4a)) by {
+                    assert forall|k: u64| #[trigger] s4a.operations@.contains_key(k) && s4a.operations@[k].packet_id is Some implies parked(s4a, k) by { if in_flight(s4, k) { assert(in_flight(s4a, k)); } }
+                    assert forall|k: u64| #[trigger] s4a.operations@.contains_key(k) && is_fresh_pubrel(s4a.operations@[k]) implies in_flight(s4a, k) by { assert(in_flight(s4, k)); }
+                }
+                lemma_shrunk_refl(s4a);
+                lemma_close_inv_shrunk(s4a, s4b, ret0);
+            }
+        }
+//@@at after "let mut it = (unacked_publish_table.into_iter()).into_iter();"
+        proof {
+            if hs_ok(*old(self)) {
+                let rem = it.remaining();
+                // every entry of the table that was just emptied is in the enumeration, under the id of the operation that holds that packet id
+                assert forall|k: u64| #[trigger] self.operations@.contains_key(k) && self.operations@[k].packet_id is Some && s6.pending_publish_operations@.contains_key(self.operations@[k].packet_id->Some_0)
+                    implies (exists|i: int| 0 <= i < rem.len() && (#[trigger] rem[i]).1 == k) by {
+                    let p = self.operations@[k].packet_id->Some_0;
+                    let i = choose|i: int| 0 <= i < rem.len() && (#[trigger] rem[i]).0 == p;
+                    assert(s6.pending_publish_operations@.contains_pair(rem[i].0, rem[i].1));
+                    s6.lemma_bound_ids_unique(s6.pending_publish_operations@[p], k);
+                    assert(rem[i].1 == k);
+                }
+                assert forall|i: int| 0 <= i < rem.len() implies (#[trigger] rem[i]).1 < self.next_operation_id by {
+                    assert(s6.pending_publish_operations@.contains_pair(rem[i].0, rem[i].1));
+                    assert(s6.operations@.contains_key(s6.pending_publish_operations@[rem[i].0]));
+                }
+                assert forall|k: u64| #[trigger] self.operations@.contains_key(k) && is_fresh_pubrel(self.operations@[k]) implies
+                    (exists|i: int| 0 <= i < rem.len() && (#[trigger] rem[i]).1 == k) by {
+                    assert(in_flight(s6, k));
+                    let p = s6.operations@[k].packet_id->Some_0;
+                    if s6.pending_non_publish_operations@.contains_key(p) { s6.lemma_bound_ids_unique(s6.pending_non_publish_operations@[p], k); }
+                    assert(s6.pending_publish_operations@.contains_key(p));
+                }
+                assert(requeue_inv(*self, rem, false));
+            }
+        }
+//@@at before "match it.next() { @nth=1/2"
+            let ghost rem_pre = it.remaining();
+            let ghost b0 = *self;
+//@@at after "self.resubmit_operation_queue.push_back(id);"
+            proof {
+                if hs_ok(*old(self)) {
+                    assert(rem_pre.len() > 0 && rem_pre[0].1 == id && it.remaining() =~= rem_pre.skip(1));
+                    lemma_requeue_step_pub(b0, *self, rem_pre, id);
+                }
+            }
+//@@at after "let mut it = (unacked_sub_unsub_table.into_iter()).into_iter();"
+        proof {
+            if hs_ok(*old(self)) {
+                let rem = it.remaining();
+                assert forall|k: u64| #[trigger] self.operations@.contains_key(k) && self.operations@[k].packet_id is Some && after_pub.pending_non_publish_operations@.contains_key(self.operations@[k].packet_id->Some_0)
+                    implies (exists|i: int| 0 <= i < rem.len() && (#[trigger] rem[i]).1 == k) by {
+                    let p = self.operations@[k].packet_id->Some_0;
+                    let i = choose|i: int| 0 <= i < rem.len() && (#[trigger] rem[i]).0 == p;
+                    assert(after_pub.pending_non_publish_operations@.contains_pair(rem[i].0, rem[i].1));
+                    after_pub.lemma_bound_ids_unique(after_pub.pending_non_publish_operations@[p], k);
+                    assert(rem[i].1 == k);
+                }
+                assert forall|i: int| 0 <= i < rem.len() implies (#[trigger] rem[i]).1 < self.next_operation_id by {
+                    assert(after_pub.pending_non_publish_operations@.contains_pair(rem[i].0, rem[i].1));
+                    assert(after_pub.operations@.contains_key(after_pub.pending_non_publish_operations@[rem[i].0]));
+                }
+                assert(requeue_inv(*self, rem, true));
+            }
+        }
+//@@at before "match it.next() { @nth=2/2"
+            let ghost rem_pre = it.remaining();
+            let ghost b0 = *self;
+//@@at after "self.user_operation_queue.push_front(id);"
+            proof {
+                if hs_ok(*old(self)) {
+                    assert(rem_pre.len() > 0 && rem_pre[0].1 == id && it.remaining() =~= rem_pre.skip(1));
+                    lemma_requeue_step_nonpub(b0, *self, rem_pre, id);
+                }
+            }
+//@@at before "let mut unacked_sub_unsub_table = HashMap::new();"
+        let ghost after_pub = *self;
+        proof { if hs_ok(*old(self)) { assert(requeue_inv(after_pub, Seq::<(u16, u64)>::empty(), false)); assert(requeue_inv(after_pub, Seq::<(u16, u64)>::empty(), true)); } }
+//@@at before "let mut user_move : VecDeque<u64> = VecDeque::new();"
+        let ghost t1 = *self;
+//@@at after "let (mut retained_user, rejected_user) = self.partition_operation_queue_by_queue_policy(&user_move, &self.config.offline_queue_policy);"
+        let ghost t2 = *self;
+        let ghost ru0 = retained_user@;
+        let ghost rj0 = rejected_user@;
+//@@at after "self.user_operation_queue.append(&mut retained_user);"
+        proof {
+            if hs_ok(*old(self)) {
+                let fin = *self;
+                lemma_qpart_contains(t2, t1.user_operation_queue@, t2.config.offline_queue_policy, true);
+                lemma_qpart_contains(t2, t1.user_operation_queue@, t2.config.offline_queue_policy, false);
+                lemma_concat_contains(Seq::<u64>::empty(), ru0);
+                assert(requeue_inv(t1, Seq::<(u16, u64)>::empty(), true));
+                assert forall|k: u64| #[trigger] fin.operations@.contains_key(k) && fin.operations@[k].packet_id is Some implies
+                    (fin.current_operation == Some(k) || in_flight(fin, k) || fin.resubmit_operation_queue@.contains(k) || fin.user_operation_queue@.contains(k)) by {
+                    assert(t2.operations@.contains_key(k) && t1.operations@.contains_key(k));
+                    assert(fin.operations@[k] == t2.operations@[k]);
+                    if !t1.resubmit_operation_queue@.contains(k) {
+                        assert(t1.user_operation_queue@.contains(k));
+                        assert(!rj0.contains(k));
+                        assert(ru0.contains(k));
+                    }
+                }
+                assert forall|k: u64| #[trigger] fin.operations@.contains_key(k) && is_fresh_pubrel(fin.operations@[k]) implies in_flight(fin, k) by {
+                    assert(t1.operations@.contains_key(k)); assert(fin.operations@[k] == t1.operations@[k]);
+                }
+                assert forall|i: int| 0 <= i < fin.resubmit_operation_queue@.len() && fin.operations@.contains_key(#[trigger] fin.resubmit_operation_queue@[i])
+                    implies *fin.operations@[fin.resubmit_operation_queue@[i]].packet is Publish by {
+                    let x = fin.resubmit_operation_queue@[i]; assert(t1.operations@.contains_key(x)); assert(fin.operations@[x] == t1.operations@[x]);
+                }
+                assert(hs_quiet(fin));
+                assert(hs_ok(fin));
+            }
         }
 //@end
 }
@@ -2543,6 +2687,7 @@ impl ProtocolState {
         resubmit_only_publishes(*old(self)),
         !session_present ==> bound_ops_queued(*old(self)),
     ensures final(self).wf(), handshake_quiet(*final(self)),
+        hs_ok(*old(self)) ==> hs_ok(*final(self)),
         asp_frame(*old(self), *final(self)),
         // C10: submission order is re-established in both queues
         sorted_ids(final(self).user_operation_queue@), sorted_ids(final(self).resubmit_operation_queue@),
@@ -2725,6 +2870,43 @@ impl ProtocolState {
                 }
             }
         }
+//@@at after "assert!(self.pending_write_completion_operations.is_empty());"
+        proof {
+            if hs_ok(*old(self)) {
+                old(self).resubmit_operation_queue@.to_multiset_ensures();
+                self.resubmit_operation_queue@.to_multiset_ensures();
+                if session_present {
+                    assert(self.resubmit_operation_queue@.to_multiset() == old(self).resubmit_operation_queue@.to_multiset());
+                    assert forall|k: u64| self.resubmit_operation_queue@.contains(k) <==> old(self).resubmit_operation_queue@.contains(k) by {
+                        assert(self.resubmit_operation_queue@.to_multiset().count(k) == old(self).resubmit_operation_queue@.to_multiset().count(k));
+                        assert(self.resubmit_operation_queue@.contains(k) <==> self.resubmit_operation_queue@.to_multiset().count(k) > 0);
+                        assert(old(self).resubmit_operation_queue@.contains(k) <==> old(self).resubmit_operation_queue@.to_multiset().count(k) > 0);
+                    }
+                    assert forall|i: int| 0 <= i < self.resubmit_operation_queue@.len() implies #[trigger] self.resubmit_operation_queue@[i] < self.next_operation_id by {
+                        let k = self.resubmit_operation_queue@[i];
+                        assert(self.resubmit_operation_queue@.contains(k));
+                        let i0 = choose|i0: int| 0 <= i0 < old(self).resubmit_operation_queue@.len() && old(self).resubmit_operation_queue@[i0] == k;
+                    }
+                    assert forall|i: int| 0 <= i < self.resubmit_operation_queue@.len() && self.operations@.contains_key(#[trigger] self.resubmit_operation_queue@[i])
+                        implies *self.operations@[self.resubmit_operation_queue@[i]].packet is Publish by {
+                        let k = self.resubmit_operation_queue@[i];
+                        assert(self.resubmit_operation_queue@.contains(k));
+                        let i0 = choose|i0: int| 0 <= i0 < old(self).resubmit_operation_queue@.len() && old(self).resubmit_operation_queue@[i0] == k;
+                        assert(old(self).operations@.contains_key(k));
+                    }
+                    assert forall|k: u64| #[trigger] self.operations@.contains_key(k) && self.operations@[k].packet_id is Some implies
+                        (self.current_operation == Some(k) || in_flight(*self, k) || self.resubmit_operation_queue@.contains(k) || self.user_operation_queue@.contains(k)) by {
+                        assert(old(self).operations@.contains_key(k));
+                        assert(!old(self).user_operation_queue@.contains(k));
+                        assert(self.operations@[k] == old(self).operations@[k]);
+                        assert(!in_flight(*old(self), k));
+                    }
+                } else {
+                    assert(self.resubmit_operation_queue@.len() == 0);
+                }
+                assert(hs_ok(*self));
+            }
+        }
 //@end
 
 // (body uses `completions.iter().copied()`: Iterator::copied on vec_deque::Iter is outside Verus) -> assumed, E-B
@@ -2794,10 +2976,15 @@ pub open spec fn hs_quiet(s: ProtocolState) -> bool {
 pub open spec fn resubmit_known(s: ProtocolState) -> bool {
     forall|i: int| 0 <= i < s.resubmit_operation_queue@.len() ==> #[trigger] s.resubmit_operation_queue@[i] < s.next_operation_id
 }
-pub open spec fn hs_ok(s: ProtocolState) -> bool { resubmit_only_publishes(s) && resubmit_known(s) && bound_located(s) && hs_quiet(s) }
+//   H6  a QoS 2 publish that has its PUBREC (PUBREL set) and was not yet interrupted (DUP = 0) is still in the in-flight table
+pub open spec fn fresh_pubrel_in_flight(s: ProtocolState) -> bool {
+    forall|k: u64| #[trigger] s.operations@.contains_key(k) && s.operations@[k].qos2_pubrel is Some
+        && (*s.operations@[k].packet matches MqttPacket::Publish(publish) && !publish.duplicate) ==> in_flight(s, k)
+}
+pub open spec fn hs_ok(s: ProtocolState) -> bool { resubmit_only_publishes(s) && resubmit_known(s) && bound_located(s) && hs_quiet(s) && fresh_pubrel_in_flight(s) }
 // the same with one operation exempt from H2 (an operation that has just left its place and is about to be completed)
 pub open spec fn hs_ok_but(s: ProtocolState, x: u64) -> bool {
-    &&& resubmit_only_publishes(s) && resubmit_known(s) && hs_quiet(s)
+    &&& resubmit_only_publishes(s) && resubmit_known(s) && hs_quiet(s) && fresh_pubrel_in_flight(s)
     &&& forall|k: u64| k != x && #[trigger] s.operations@.contains_key(k) && s.operations@[k].packet_id is Some ==>
             s.current_operation == Some(k) || in_flight(s, k) || s.resubmit_operation_queue@.contains(k) || s.user_operation_queue@.contains(k)
 }
@@ -2857,6 +3044,239 @@ pub proof fn lemma_hs_remove(pre: ProtocolState, post: ProtocolState, id: u64)
     }
 }
 
+// ---- H2/H6 through the close handler: with nothing being written, an id-holding operation is "parked"
+pub open spec fn parked(s: ProtocolState, k: u64) -> bool {
+    in_flight(s, k) || s.resubmit_operation_queue@.contains(k) || s.user_operation_queue@.contains(k)
+}
+pub open spec fn all_parked(s: ProtocolState) -> bool {
+    forall|k: u64| #[trigger] s.operations@.contains_key(k) && s.operations@[k].packet_id is Some ==> parked(s, k)
+}
+pub open spec fn is_fresh_pubrel(op: ClientOperation) -> bool {
+    op.qos2_pubrel is Some && (*op.packet matches MqttPacket::Publish(publish) && !publish.duplicate)
+}
+// operations only disappear; queues untouched: parked operations stay parked, fresh PUBRELs stay in flight
+pub proof fn lemma_parked_shrunk(pre: ProtocolState, post: ProtocolState)
+    requires pre.wf(), all_parked(pre), fresh_pubrel_in_flight(pre), shrunk(pre, post),
+        post.resubmit_operation_queue@ == pre.resubmit_operation_queue@, post.user_operation_queue@ == pre.user_operation_queue@,
+    ensures all_parked(post), fresh_pubrel_in_flight(post),
+{
+    assert forall|k: u64| #[trigger] post.operations@.contains_key(k) && post.operations@[k].packet_id is Some implies parked(post, k) by {
+        assert(pre.operations@.contains_key(k));
+        if in_flight(pre, k) { lemma_in_flight_survives(pre, post, k); }
+    }
+    assert forall|k: u64| #[trigger] post.operations@.contains_key(k) && is_fresh_pubrel(post.operations@[k]) implies in_flight(post, k) by {
+        assert(pre.operations@.contains_key(k));
+        lemma_in_flight_survives(pre, post, k);
+    }
+}
+pub proof fn lemma_in_flight_survives(pre: ProtocolState, post: ProtocolState, k: u64)
+    requires pre.wf(), shrunk(pre, post), post.operations@.contains_key(k), pre.operations@.contains_key(k), in_flight(pre, k),
+    ensures in_flight(post, k),
+{
+    let p = pre.operations@[k].packet_id->Some_0;
+    if pre.pending_publish_operations@.contains_key(p) {
+        let k2 = pre.pending_publish_operations@[p];
+        pre.lemma_bound_ids_unique(k2, k);
+        assert(post.pending_publish_operations@.contains_key(p));
+    } else {
+        let k2 = pre.pending_non_publish_operations@[p];
+        pre.lemma_bound_ids_unique(k2, k);
+        assert(post.pending_non_publish_operations@.contains_key(p));
+    }
+}
+
+// the effect of apply_connection_closed_to_current_operation (its postcondition, restated) keeps every id-holding operation parked:
+// the half-written operation went back to the front of a queue, is still in its in-flight table (H6 for a first PUBREL), or was failed
+pub open spec fn close_current_effect(pre: ProtocolState, post: ProtocolState) -> bool {
+    let has_cur = (pre.current_operation is Some) && pre.operations@.contains_key(pre.current_operation->Some_0);
+    &&& !has_cur ==> post == (ProtocolState { current_operation: None, ..pre })
+    &&& has_cur ==> {
+            let id = pre.current_operation->Some_0;
+            let op = pre.operations@[id];
+            let keep = policy_keeps(*op.packet, pre.config.offline_queue_policy);
+            let dup = (*op.packet matches MqttPacket::Publish(publish) && publish.duplicate);
+            let rel = is_qos_publish(*op.packet, QualityOfService::ExactlyOnce) && (op.qos2_pubrel is Some);
+            let in_fl = pre.pending_publish_operations@.contains_key(packet_id_field(*op.packet));
+            &&& (dup ==> post.resubmit_operation_queue@ == (if in_fl { pre.resubmit_operation_queue@ } else { seq![id] + pre.resubmit_operation_queue@ }) && tables_unchanged(pre, post)
+                    && post.user_operation_queue@ == pre.user_operation_queue@)
+            &&& (!dup && rel ==> tables_unchanged(pre, post) && post.user_operation_queue@ == pre.user_operation_queue@ && post.resubmit_operation_queue@ == pre.resubmit_operation_queue@)
+            &&& ((*op.packet is Subscribe || *op.packet is Unsubscribe || (*op.packet is Publish && !dup && !rel)) && keep ==>
+                    post.user_operation_queue@ == seq![id] + pre.user_operation_queue@ && tables_unchanged(pre, post) && post.resubmit_operation_queue@ == pre.resubmit_operation_queue@)
+            &&& ((*op.packet is Subscribe || *op.packet is Unsubscribe || (*op.packet is Publish && !dup && !rel)) && !keep ==> removed_exactly(pre, post, id)
+                    && post.user_operation_queue@ == pre.user_operation_queue@ && post.resubmit_operation_queue@ == pre.resubmit_operation_queue@)
+            &&& (!(*op.packet is Subscribe || *op.packet is Unsubscribe || *op.packet is Publish) ==> removed_exactly(pre, post, id)
+                    && post.user_operation_queue@ == pre.user_operation_queue@ && post.resubmit_operation_queue@ == pre.resubmit_operation_queue@)
+        }
+}
+pub proof fn lemma_close_current_parks(pre: ProtocolState, post: ProtocolState)
+    requires pre.wf(), bound_located(pre), fresh_pubrel_in_flight(pre), resubmit_only_publishes(pre), resubmit_known(pre), close_current_effect(pre, post),
+        post.next_operation_id == pre.next_operation_id,
+    ensures close_inv(post),
+{
+    let has_cur = (pre.current_operation is Some) && pre.operations@.contains_key(pre.current_operation->Some_0);
+    if has_cur {
+        let id = pre.current_operation->Some_0;
+        let op = pre.operations@[id];
+        lemma_concat_contains(seq![id], pre.resubmit_operation_queue@);
+        lemma_concat_contains(seq![id], pre.user_operation_queue@);
+        assert(seq![id].contains(id)) by { assert(seq![id][0] == id); }
+        if tables_unchanged(pre, post) {
+            assert forall|k: u64| #[trigger] post.operations@.contains_key(k) && post.operations@[k].packet_id is Some implies parked(post, k) by {
+                if k == id {
+                    let dup = (*op.packet matches MqttPacket::Publish(publish) && publish.duplicate);
+                    let rel = is_qos_publish(*op.packet, QualityOfService::ExactlyOnce) && (op.qos2_pubrel is Some);
+                    if !dup && rel { assert(in_flight(pre, id)); assert(in_flight(post, id)); }
+                    if dup && pre.pending_publish_operations@.contains_key(packet_id_field(*op.packet)) { assert(in_flight(post, id)); }
+                } else {
+                    if in_flight(pre, k) { assert(in_flight(post, k)); }
+                }
+            }
+            assert forall|i: int| 0 <= i < post.resubmit_operation_queue@.len() && post.operations@.contains_key(#[trigger] post.resubmit_operation_queue@[i])
+                implies *post.operations@[post.resubmit_operation_queue@[i]].packet is Publish by {
+                let x = post.resubmit_operation_queue@[i];
+                assert(post.resubmit_operation_queue@.contains(x));
+                if x != id { assert(pre.resubmit_operation_queue@.contains(x)); let i0 = choose|i0: int| 0 <= i0 < pre.resubmit_operation_queue@.len() && pre.resubmit_operation_queue@[i0] == x; }
+                else if !pre.resubmit_operation_queue@.contains(x) { }
+                else { let i0 = choose|i0: int| 0 <= i0 < pre.resubmit_operation_queue@.len() && pre.resubmit_operation_queue@[i0] == x; }
+            }
+            assert forall|i: int| 0 <= i < post.resubmit_operation_queue@.len() implies #[trigger] post.resubmit_operation_queue@[i] < post.next_operation_id by {
+                let x = post.resubmit_operation_queue@[i];
+                assert(post.resubmit_operation_queue@.contains(x));
+                if pre.resubmit_operation_queue@.contains(x) { let i0 = choose|i0: int| 0 <= i0 < pre.resubmit_operation_queue@.len() && pre.resubmit_operation_queue@[i0] == x; }
+            }
+            assert forall|k: u64| #[trigger] post.operations@.contains_key(k) && is_fresh_pubrel(post.operations@[k]) implies in_flight(post, k) by { assert(in_flight(pre, k)); }
+        } else {
+            assert(removed_exactly(pre, post, id));
+            assert forall|k: u64| #[trigger] post.operations@.contains_key(k) && post.operations@[k].packet_id is Some implies parked(post, k) by {
+                assert(k != id && pre.operations@.contains_key(k));
+                if in_flight(pre, k) { if pre.operations@[id].packet_id == pre.operations@[k].packet_id { pre.lemma_bound_ids_unique(id, k); } assert(in_flight(post, k)); }
+            }
+            assert forall|k: u64| #[trigger] post.operations@.contains_key(k) && is_fresh_pubrel(post.operations@[k]) implies in_flight(post, k) by {
+                assert(in_flight(pre, k));
+                if pre.operations@[id].packet_id == pre.operations@[k].packet_id { pre.lemma_bound_ids_unique(id, k); }
+            }
+            assert forall|i: int| 0 <= i < post.resubmit_operation_queue@.len() && post.operations@.contains_key(#[trigger] post.resubmit_operation_queue@[i])
+                implies *post.operations@[post.resubmit_operation_queue@[i]].packet is Publish by { assert(pre.operations@.contains_key(pre.resubmit_operation_queue@[i])); }
+        }
+    } else {
+        assert forall|k: u64| #[trigger] post.operations@.contains_key(k) && post.operations@[k].packet_id is Some implies parked(post, k) by {
+            if in_flight(pre, k) { assert(in_flight(post, k)); }
+        }
+        assert forall|k: u64| #[trigger] post.operations@.contains_key(k) && is_fresh_pubrel(post.operations@[k]) implies in_flight(post, k) by { assert(in_flight(pre, k)); }
+    }
+}
+
+// four facts carried through the close handler, stage by stage
+pub open spec fn close_inv(s: ProtocolState) -> bool { all_parked(s) && fresh_pubrel_in_flight(s) && resubmit_only_publishes(s) && resubmit_known(s) }
+
+// only bookkeeping fields of operations change (slow-start weight, interruption count): nothing moves
+pub proof fn lemma_close_inv_same_ids(pre: ProtocolState, post: ProtocolState)
+    requires close_inv(pre), post == (ProtocolState { operations: post.operations, ..pre }), post.operations@.dom() =~= pre.operations@.dom(),
+        forall|k: u64| #[trigger] pre.operations@.contains_key(k) ==> post.operations@[k].packet_id == pre.operations@[k].packet_id
+            && post.operations@[k].qos2_pubrel == pre.operations@[k].qos2_pubrel && post.operations@[k].packet == pre.operations@[k].packet,
+    ensures close_inv(post),
+{
+    assert forall|k: u64| #[trigger] post.operations@.contains_key(k) && post.operations@[k].packet_id is Some implies parked(post, k) by {
+        assert(pre.operations@.contains_key(k)); if in_flight(pre, k) { assert(in_flight(post, k)); }
+    }
+    assert forall|k: u64| #[trigger] post.operations@.contains_key(k) && is_fresh_pubrel(post.operations@[k]) implies in_flight(post, k) by {
+        assert(pre.operations@.contains_key(k)); assert(in_flight(pre, k));
+    }
+    assert forall|i: int| 0 <= i < post.resubmit_operation_queue@.len() && post.operations@.contains_key(#[trigger] post.resubmit_operation_queue@[i])
+        implies *post.operations@[post.resubmit_operation_queue@[i]].packet is Publish by { assert(pre.operations@.contains_key(pre.resubmit_operation_queue@[i])); }
+}
+// operations are failed (removed); the retransmission queue is untouched, the user queue may have grown at its end
+pub proof fn lemma_close_inv_shrunk(pre: ProtocolState, post: ProtocolState, appended: Seq<u64>)
+    requires pre.wf(), close_inv(pre), shrunk(pre, post), post.next_operation_id == pre.next_operation_id,
+        post.resubmit_operation_queue@ == pre.resubmit_operation_queue@, post.user_operation_queue@ == pre.user_operation_queue@ + appended,
+    ensures close_inv(post),
+{
+    lemma_concat_contains(pre.user_operation_queue@, appended);
+    let mid = ProtocolState { user_operation_queue: pre.user_operation_queue, ..post };
+    assert forall|k: u64| #[trigger] post.operations@.contains_key(k) && post.operations@[k].packet_id is Some implies parked(post, k) by {
+        assert(pre.operations@.contains_key(k));
+        if in_flight(pre, k) { lemma_in_flight_survives(pre, post, k); }
+    }
+    assert forall|k: u64| #[trigger] post.operations@.contains_key(k) && is_fresh_pubrel(post.operations@[k]) implies in_flight(post, k) by {
+        assert(pre.operations@.contains_key(k)); lemma_in_flight_survives(pre, post, k);
+    }
+    assert forall|i: int| 0 <= i < post.resubmit_operation_queue@.len() && post.operations@.contains_key(#[trigger] post.resubmit_operation_queue@[i])
+        implies *post.operations@[post.resubmit_operation_queue@[i]].packet is Publish by { assert(pre.operations@.contains_key(pre.resubmit_operation_queue@[i])); }
+}
+
+// while an in-flight table is being re-queued entry by entry: an id-holding operation is queued, or still in the other table, or among
+// the entries not yet walked; a fresh PUBREL (H6) is among the entries not yet walked
+pub open spec fn requeue_inv(s: ProtocolState, rem: Seq<(u16, u64)>, fresh_done: bool) -> bool {
+    &&& forall|k: u64| #[trigger] s.operations@.contains_key(k) && s.operations@[k].packet_id is Some ==>
+            s.resubmit_operation_queue@.contains(k) || s.user_operation_queue@.contains(k)
+            || s.pending_non_publish_operations@.contains_key(s.operations@[k].packet_id->Some_0)
+            || exists|i: int| 0 <= i < rem.len() && (#[trigger] rem[i]).1 == k
+    &&& forall|k: u64| #[trigger] s.operations@.contains_key(k) && is_fresh_pubrel(s.operations@[k]) ==>
+            !fresh_done && exists|i: int| 0 <= i < rem.len() && (#[trigger] rem[i]).1 == k
+    &&& resubmit_only_publishes(s) && resubmit_known(s)
+    &&& forall|i: int| 0 <= i < rem.len() ==> (#[trigger] rem[i]).1 < s.next_operation_id
+}
+
+// one entry of the in-flight PUBLISH table is re-queued: DUP is set, the id goes to the end of the retransmission queue
+pub proof fn lemma_requeue_step_pub(pre: ProtocolState, post: ProtocolState, rem: Seq<(u16, u64)>, id: u64)
+    requires requeue_inv(pre, rem, false), rem.len() > 0, rem[0].1 == id,
+        pre.operations@.contains_key(id) ==> *pre.operations@[id].packet is Publish,
+        post.operations@.dom() =~= pre.operations@.dom(),
+        forall|k: u64| k != id && pre.operations@.contains_key(k) ==> post.operations@[k] == pre.operations@[k],
+        pre.operations@.contains_key(id) ==> post.operations@[id].packet_id == pre.operations@[id].packet_id && post.operations@[id].qos2_pubrel == pre.operations@[id].qos2_pubrel
+            && (*post.operations@[id].packet matches MqttPacket::Publish(publish) && publish.duplicate),
+        post.resubmit_operation_queue@ == pre.resubmit_operation_queue@.push(id), post.user_operation_queue@ == pre.user_operation_queue@,
+        post.pending_non_publish_operations@ == pre.pending_non_publish_operations@, post.next_operation_id == pre.next_operation_id,
+    ensures requeue_inv(post, rem.skip(1), false),
+{
+    let rem2 = rem.skip(1);
+    lemma_push_contains(pre.resubmit_operation_queue@, id);
+    assert forall|k: u64| #[trigger] post.operations@.contains_key(k) && post.operations@[k].packet_id is Some implies
+        (post.resubmit_operation_queue@.contains(k) || post.user_operation_queue@.contains(k)
+        || post.pending_non_publish_operations@.contains_key(post.operations@[k].packet_id->Some_0)
+        || exists|i: int| 0 <= i < rem2.len() && (#[trigger] rem2[i]).1 == k) by {
+        assert(pre.operations@.contains_key(k));
+        if k != id && !pre.resubmit_operation_queue@.contains(k) && !pre.user_operation_queue@.contains(k) && !pre.pending_non_publish_operations@.contains_key(pre.operations@[k].packet_id->Some_0) {
+            let i = choose|i: int| 0 <= i < rem.len() && (#[trigger] rem[i]).1 == k;
+            assert(i >= 1); assert(rem2[i - 1].1 == k);
+        }
+    }
+    assert forall|k: u64| #[trigger] post.operations@.contains_key(k) && is_fresh_pubrel(post.operations@[k]) implies
+        (exists|i: int| 0 <= i < rem2.len() && (#[trigger] rem2[i]).1 == k) by {
+        assert(k != id); assert(pre.operations@.contains_key(k));
+        let i = choose|i: int| 0 <= i < rem.len() && (#[trigger] rem[i]).1 == k;
+        assert(i >= 1); assert(rem2[i - 1].1 == k);
+    }
+    assert forall|i: int| 0 <= i < post.resubmit_operation_queue@.len() && post.operations@.contains_key(#[trigger] post.resubmit_operation_queue@[i])
+        implies *post.operations@[post.resubmit_operation_queue@[i]].packet is Publish by {
+        if i < pre.resubmit_operation_queue@.len() { let x = pre.resubmit_operation_queue@[i]; assert(pre.operations@.contains_key(x)); if x != id { assert(post.operations@[x] == pre.operations@[x]); } }
+    }
+    assert forall|i: int| 0 <= i < post.resubmit_operation_queue@.len() implies #[trigger] post.resubmit_operation_queue@[i] < post.next_operation_id by {
+        if i < pre.resubmit_operation_queue@.len() { assert(pre.resubmit_operation_queue@[i] < pre.next_operation_id); } else { assert(rem[0].1 < pre.next_operation_id); }
+    }
+    assert forall|i: int| 0 <= i < rem2.len() implies (#[trigger] rem2[i]).1 < post.next_operation_id by { assert(rem[i + 1].1 < pre.next_operation_id); }
+}
+// one entry of the in-flight SUBSCRIBE/UNSUBSCRIBE table is re-queued at the front of the user queue
+pub proof fn lemma_requeue_step_nonpub(pre: ProtocolState, post: ProtocolState, rem: Seq<(u16, u64)>, id: u64)
+    requires requeue_inv(pre, rem, true), rem.len() > 0, rem[0].1 == id,
+        post == (ProtocolState { user_operation_queue: post.user_operation_queue, ..pre }), post.user_operation_queue@ == seq![id] + pre.user_operation_queue@,
+    ensures requeue_inv(post, rem.skip(1), true),
+{
+    let rem2 = rem.skip(1);
+    lemma_concat_contains(seq![id], pre.user_operation_queue@);
+    assert(seq![id].contains(id)) by { assert(seq![id][0] == id); }
+    assert forall|k: u64| #[trigger] post.operations@.contains_key(k) && post.operations@[k].packet_id is Some implies
+        (post.resubmit_operation_queue@.contains(k) || post.user_operation_queue@.contains(k)
+        || post.pending_non_publish_operations@.contains_key(post.operations@[k].packet_id->Some_0)
+        || exists|i: int| 0 <= i < rem2.len() && (#[trigger] rem2[i]).1 == k) by {
+        if k != id && !pre.resubmit_operation_queue@.contains(k) && !pre.user_operation_queue@.contains(k) && !pre.pending_non_publish_operations@.contains_key(pre.operations@[k].packet_id->Some_0) {
+            let i = choose|i: int| 0 <= i < rem.len() && (#[trigger] rem[i]).1 == k;
+            assert(i >= 1); assert(rem2[i - 1].1 == k);
+        }
+    }
+    assert forall|i: int| 0 <= i < rem2.len() implies (#[trigger] rem2[i]).1 < post.next_operation_id by { assert(rem[i + 1].1 < pre.next_operation_id); }
+}
+
 // what must be true of the engine when a CONNACK is accepted (A-HANDSHAKE; see apply_session_present_to_connection)
 pub open spec fn connack_ready(s: ProtocolState) -> bool {
     handshake_quiet(s) && resubmit_only_publishes(s) && bound_ops_queued(s)
@@ -2869,6 +3289,7 @@ impl ProtocolState {
     requires old(self).wf(), *packet is Connack, clock_ok(old(context).current_time),
         old(self).state == ProtocolStateType::PendingConnack ==> connack_ready(*old(self)),
     ensures final(self).wf(),
+        hs_ok(*old(self)) ==> hs_ok(*final(self)),
         final(self).next_operation_id == old(self).next_operation_id,
         final(context).current_time == old(context).current_time,
         ({
@@ -2904,6 +3325,7 @@ impl ProtocolState {
     requires old(self).wf(), opid_budget(*old(self), 1), clock_ok(old(context).current_time),
         (*packet is Connack && old(self).state == ProtocolStateType::PendingConnack) ==> connack_ready(*old(self)),
     ensures final(self).wf(),
+        hs_ok(*old(self)) ==> hs_ok(*final(self)),
         final(context).current_time == old(context).current_time,
         // packets a server may never send, and AUTH, are connection errors
         !(*packet is Connack || *packet is Publish || *packet is Pingresp || *packet is Disconnect || *packet is Suback || *packet is Unsuback
@@ -3071,6 +3493,8 @@ impl ProtocolState {
 //@fn gneiss-mqtt/src/protocol.rs ProtocolState::reset props=C01,C06,C11 desugar
     requires old(self).wf(),
     ensures final(self).wf(),
+        // a reset engine satisfies H1-H6 outright (this also shows the invariant is satisfiable)
+        hs_ok(*final(self)),
         // C01: "when the engine is reset (client closed) ... nothing stays tracked"; C06: no identifier stays reserved
         final(self).operations@ == Map::<u64, ClientOperation>::empty(),
         final(self).allocated_packet_ids@ == Map::<u16, u64>::empty(),
